@@ -3,3 +3,5 @@ import SrProps.C06
 import SrProps.C10
 import SrProps.C12
 import SrProps.C13
+import SrProps.C17
+import SrProps.C20
